@@ -13,11 +13,16 @@ import (
 
 	"github.com/formancehq/go-libs/v5/pkg/types/metadata"
 
+	"github.com/formancehq/go-libs/v5/pkg/query"
+
 	ledger "github.com/formancehq/ledger/internal"
+	ledgercontroller "github.com/formancehq/ledger/internal/controller/ledger"
+	systemcontroller "github.com/formancehq/ledger/internal/controller/system"
 	"github.com/formancehq/ledger/internal/storage/bucket"
 	"github.com/formancehq/go-libs/v5/pkg/storage/postgres"
 	"github.com/formancehq/ledger/internal/storage/common"
 	ledgerstore "github.com/formancehq/ledger/internal/storage/ledger"
+	storagedriver "github.com/formancehq/ledger/internal/storage/driver"
 	systemstore "github.com/formancehq/ledger/internal/storage/system"
 	"github.com/formancehq/ledger/internal/verif/pgfake"
 )
@@ -311,5 +316,224 @@ func benchMain(args []string) int {
 		return 1
 	}
 	fmt.Printf("list page (%d rows): %.2fs\n", len(cur.Data), time.Since(t1).Seconds())
+	return 0
+}
+
+// driverSmokeMain: the REAL storage driver (CreateLedger / OpenLedger) over LeanPG.
+func driverSmokeMain(args []string) int {
+	srv, err := pgfake.Start(pgfake.DefaultLpgPath())
+	if err != nil {
+		fmt.Fprintln(os.Stderr, err)
+		return 1
+	}
+	defer srv.Close()
+	ctx := context.Background()
+	d := storagedriver.New(srv.DB(), ledgerstore.NewFactory(srv.DB()), bucket.NewDefaultFactory(), systemstore.NewStoreFactory())
+	for _, spec := range [][2]string{{"l1", "_default"}, {"l2", "_default"}, {"l3", "other"}} {
+		cfg := ledger.NewDefaultConfiguration()
+		cfg.Bucket = spec[1]
+		l, err := ledger.New(spec[0], cfg)
+		if err != nil {
+			fmt.Fprintln(os.Stderr, err)
+			return 1
+		}
+		store, err := d.CreateLedger(ctx, l)
+		if err != nil {
+			fmt.Fprintln(os.Stderr, "CreateLedger", spec, ":", err)
+			for _, s := range srv.Log() {
+				if s.Err != "" {
+					fmt.Fprintf(os.Stderr, "  [%s] %s\n", s.Err, s.SQL)
+				}
+			}
+			return 1
+		}
+		up, err := store.HasMinimalVersion(ctx)
+		fmt.Println("created", l.Name, "id", l.ID, "bucket", l.Bucket, "upToDate", up, err)
+		tx := ledger.NewTransaction().WithPostings(ledger.NewPosting("world", "bank", "USD", big.NewInt(5)))
+		if err := store.CommitTransaction(ctx, &tx); err != nil {
+			fmt.Fprintln(os.Stderr, "commit:", err)
+			return 1
+		}
+	}
+	st, l, err := d.OpenLedger(ctx, "l3")
+	if err != nil {
+		fmt.Fprintln(os.Stderr, "OpenLedger:", err)
+		return 1
+	}
+	n, err := st.Transactions().Count(ctx, common.ResourceQuery[any]{})
+	fmt.Println("opened", l.Name, "transactions:", n, err)
+	dup := ledger.MustNewWithDefault("l1")
+	_, err = d.CreateLedger(ctx, &dup)
+	fmt.Println("duplicate:", err)
+	return 0
+}
+
+// blocksSmokeMain: HASH_LOGS=ASYNC ledger, a few logs, then `call create_blocks`.
+func blocksSmokeMain(args []string) int {
+	srv, err := pgfake.Start(pgfake.DefaultLpgPath())
+	if err != nil {
+		fmt.Fprintln(os.Stderr, err)
+		return 1
+	}
+	defer srv.Close()
+	ctx := context.Background()
+	cfg := ledger.NewDefaultConfiguration()
+	cfg.Features = cfg.Features.With("HASH_LOGS", "ASYNC")
+	l, _ := ledger.New("blk", cfg)
+	if err := srv.CreateLedgerInSystem(ctx, l); err != nil {
+		fmt.Fprintln(os.Stderr, err)
+		return 1
+	}
+	store := ledgerstore.New(srv.DB(), bucket.NewDefaultFactory().Create(l.Bucket), *l)
+	for i := 0; i < 5; i++ {
+		lg := ledger.NewLog(ledger.SavedMetadata{TargetType: ledger.MetaTargetTypeAccount, TargetID: fmt.Sprintf("acc:%d", i), Metadata: metadata.Metadata{"k": "v"}})
+		if err := store.InsertLog(ctx, &lg); err != nil {
+			fmt.Fprintln(os.Stderr, "InsertLog:", err)
+			return 1
+		}
+	}
+	for round := 0; round < 2; round++ {
+		if _, err := srv.DB().NewRaw(fmt.Sprintf(`call "%s".create_blocks(?, ?)`, l.Bucket), l.Name, 2).Exec(ctx); err != nil {
+			fmt.Fprintln(os.Stderr, "create_blocks:", err)
+			for _, s := range srv.Log() {
+				if s.Err != "" {
+					fmt.Fprintf(os.Stderr, "  [%s] %s\n", s.Err, s.SQL)
+				}
+			}
+			return 1
+		}
+	}
+	d, _ := srv.Dump(l.Name)
+	var dump map[string][]map[string]any
+	_ = json.Unmarshal(d, &dump)
+	for _, b := range dump["_default.logs_blocks"] {
+		fmt.Println(b["id"], b["previous"], b["from_id"], b["to_id"], b["hash"])
+	}
+	for _, lg := range dump["_default.logs"] {
+		fmt.Println("LOG", lg["id"], lg["type"], lg["date"], lg["memento"])
+	}
+	return 0
+}
+
+// ctrlSmokeMain: the REAL system controller + ledger controller (log processor,
+// Numscript machine, state tracker, cache) over the real storage driver over LeanPG.
+func ctrlSmokeMain(args []string) int {
+	srv, err := pgfake.Start(pgfake.DefaultLpgPath())
+	if err != nil {
+		fmt.Fprintln(os.Stderr, err)
+		return 1
+	}
+	defer srv.Close()
+	ctx := context.Background()
+	db := srv.DB()
+	d := storagedriver.New(db, ledgerstore.NewFactory(db), bucket.NewDefaultFactory(), systemstore.NewStoreFactory())
+	parser := ledgercontroller.NewDefaultNumscriptParser()
+	sys := systemcontroller.NewDefaultController(
+		systemcontroller.NewControllerStorageDriverAdapter(d, systemstore.New(db)), nil, nil,
+		systemcontroller.WithParser(parser, parser, ledgercontroller.NewInterpreterNumscriptParser(nil)),
+		systemcontroller.WithEnableFeatures(true),
+	)
+	fail := func(what string, err error) int {
+		fmt.Fprintln(os.Stderr, what+":", err)
+		for _, s := range srv.Log() {
+			if s.Err != "" && s.Err != "23505" {
+				fmt.Fprintf(os.Stderr, "  [%s] %s\n", s.Err, s.SQL)
+			}
+		}
+		return 1
+	}
+	if err := sys.CreateLedger(ctx, "c1", ledger.NewDefaultConfiguration()); err != nil {
+		return fail("CreateLedger", err)
+	}
+	ctrl, err := sys.GetLedgerController(ctx, "c1")
+	if err != nil {
+		return fail("GetLedgerController", err)
+	}
+	mkTx := func(src, dst string, amount int64, ik string) error {
+		_, _, _, err := ctrl.CreateTransaction(ctx, ledgercontroller.Parameters[ledgercontroller.CreateTransaction]{
+			IdempotencyKey: ik,
+			Input: ledgercontroller.CreateTransaction{
+				RunScript: ledgercontroller.TxToScriptData(ledger.TransactionData{
+					Postings: ledger.Postings{ledger.NewPosting(src, dst, "USD", big.NewInt(amount))},
+					Metadata: metadata.Metadata{"k": "v"},
+				}, false),
+			},
+		})
+		return err
+	}
+	if err := mkTx("world", "bank", 100, "ik1"); err != nil {
+		return fail("CreateTransaction 1", err)
+	}
+	if err := mkTx("bank", "alice", 30, ""); err != nil {
+		return fail("CreateTransaction 2", err)
+	}
+	fmt.Println("insufficient funds:", mkTx("alice", "bob", 1000, ""))
+	fmt.Println("idempotent replay:", mkTx("world", "bank", 100, "ik1"))
+	fmt.Println("ik with other input:", mkTx("world", "bank", 101, "ik1"))
+	if _, _, err := ctrl.SaveAccountMetadata(ctx, ledgercontroller.Parameters[ledgercontroller.SaveAccountMetadata]{Input: ledgercontroller.SaveAccountMetadata{Address: "alice", Metadata: metadata.Metadata{"role": "admin"}}}); err != nil {
+		return fail("SaveAccountMetadata", err)
+	}
+	if _, _, err := ctrl.SaveTransactionMetadata(ctx, ledgercontroller.Parameters[ledgercontroller.SaveTransactionMetadata]{Input: ledgercontroller.SaveTransactionMetadata{TransactionID: 1, Metadata: metadata.Metadata{"x": "y"}}}); err != nil {
+		return fail("SaveTransactionMetadata", err)
+	}
+	if _, _, err := ctrl.DeleteTransactionMetadata(ctx, ledgercontroller.Parameters[ledgercontroller.DeleteTransactionMetadata]{Input: ledgercontroller.DeleteTransactionMetadata{TransactionID: 1, Key: "x"}}); err != nil {
+		return fail("DeleteTransactionMetadata", err)
+	}
+	if _, _, err := ctrl.DeleteAccountMetadata(ctx, ledgercontroller.Parameters[ledgercontroller.DeleteAccountMetadata]{Input: ledgercontroller.DeleteAccountMetadata{Address: "alice", Key: "role"}}); err != nil {
+		return fail("DeleteAccountMetadata", err)
+	}
+	if _, _, _, err := ctrl.RevertTransaction(ctx, ledgercontroller.Parameters[ledgercontroller.RevertTransaction]{Input: ledgercontroller.RevertTransaction{TransactionID: 2}}); err != nil {
+		return fail("RevertTransaction", err)
+	}
+	_, _, _, err = ctrl.RevertTransaction(ctx, ledgercontroller.Parameters[ledgercontroller.RevertTransaction]{Input: ledgercontroller.RevertTransaction{TransactionID: 2}})
+	fmt.Println("second revert:", err)
+	acc, err := ctrl.GetAccount(ctx, common.ResourceQuery[any]{Builder: query.Match("address", "bank"), Expand: []string{"volumes", "effectiveVolumes"}})
+	if err != nil {
+		return fail("GetAccount", err)
+	}
+	ab, _ := json.Marshal(acc)
+	fmt.Println("bank:", string(ab))
+	txs, err := ctrl.ListTransactions(ctx, common.InitialPaginatedQuery[any]{PageSize: 10, Options: common.ResourceQuery[any]{Expand: []string{"volumes", "effectiveVolumes"}}})
+	if err != nil {
+		return fail("ListTransactions", err)
+	}
+	fmt.Println("transactions:", len(txs.Data))
+	logs, err := ctrl.ListLogs(ctx, common.InitialPaginatedQuery[any]{PageSize: 20})
+	if err != nil {
+		return fail("ListLogs", err)
+	}
+	fmt.Println("logs:", len(logs.Data))
+	agg, err := ctrl.GetAggregatedBalances(ctx, common.ResourceQuery[ledger.GetAggregatedVolumesOptions]{})
+	if err != nil {
+		return fail("GetAggregatedBalances", err)
+	}
+	fmt.Println("aggregated:", agg)
+	stats, err := ctrl.GetStats(ctx)
+	if err != nil {
+		return fail("GetStats", err)
+	}
+	fmt.Println("stats:", stats)
+	// export / import into a second ledger
+	if err := sys.CreateLedger(ctx, "c2", ledger.NewDefaultConfiguration()); err != nil {
+		return fail("CreateLedger c2", err)
+	}
+	ctrl2, err := sys.GetLedgerController(ctx, "c2")
+	if err != nil {
+		return fail("GetLedgerController c2", err)
+	}
+	ch := make(chan ledger.Log, 100)
+	go func() {
+		defer close(ch)
+		_ = ctrl.Export(ctx, ledgercontroller.ExportWriterFn(func(ctx context.Context, log ledger.Log) error {
+			ch <- log
+			return nil
+		}))
+	}()
+	if err := ctrl2.Import(ctx, ch); err != nil {
+		return fail("Import", err)
+	}
+	d1, _ := srv.Dump("c1")
+	d2, _ := srv.Dump("c2")
+	fmt.Println("dump sizes:", len(d1), len(d2))
 	return 0
 }
